@@ -529,6 +529,16 @@ pub fn main(args: &[String]) {
                         rep.distinct += 1;
                     }
                 }
+                // pinned requests: inputs of recorded findings, so that every tier reports them the same way
+                for (font, pcps, pgids) in [("Comfortaa-Regular-new.ttf", vec![8805u32], vec![825u32])] {
+                    if name == font {
+                        rep.evaluations += 1;
+                        let r = Request { gids: pgids, cps: pcps, retain: false, notdef: false, no_hinting: false, overlaps: false };
+                        if let Some(o) = run_subset(&name, &bytes, &r, &mut rng, None, &mut rep) {
+                            ev.push(o.event.clone());
+                        }
+                    }
+                }
                 if n <= 3000 {
                     everything_event(&name, &bytes, rng.chance(1, 2), seed, &mut ev, &mut rep);
                 }
